@@ -88,6 +88,66 @@ fn run_interleaving(kind: &Kind, scripts: &[Vec<Op>], order: &[usize]) -> Vec<Ob
         .collect()
 }
 
+/// a 2000-item weighted set through the std-HashMap entry points: every HashMap has its own random iteration order, so two
+/// instances in one thread already exercise different orders (the pruning paths of ProbMinHash3a need large sets)
+fn large_hashmap_digest(which: usize, set: u64) -> Result<Vec<u64>, String> {
+    use fnv::FnvHasher;
+    use probminhash::probminhasher::{ProbMinHash2, ProbMinHash3, ProbMinHash3a, ProbMinHash3aSha};
+    use std::collections::HashMap;
+    let wtab = [0.3, 0.5, 1.0, 1.0, 1.5, 2.0, 3.0, 4.5, 7.0, 11.0, 16.0, 40.0, 250.0];
+    let base = 7_000_000 * (set + 1);
+    crate::common::guarded_mut(move || {
+        let hm: HashMap<u64, f64> = (0..2000u64).map(|i| (base + i, wtab[(crate::common::splitmix64(base + i) % 13) as usize])).collect();
+        match which {
+            0 => {
+                let mut h = ProbMinHash3a::<u64, FnvHasher>::new(256, u64::MAX);
+                h.hash_weigthed_hashmap(&hm);
+                h.get_signature().clone()
+            }
+            1 => {
+                let mut h = ProbMinHash3::<u64, FnvHasher>::new(256, u64::MAX);
+                h.hash_weigthed_hashmap(&hm);
+                h.get_signature().clone()
+            }
+            2 => {
+                let mut h = ProbMinHash2::<u64, FnvHasher>::new(256, u64::MAX);
+                h.hash_weigthed_hashmap::<std::collections::hash_map::RandomState>(&hm);
+                h.get_signature().clone()
+            }
+            _ => {
+                let mut h = ProbMinHash3aSha::<u64>::new(256, u64::MAX);
+                h.hash_weigthed_hashmap(&hm);
+                h.get_signature().clone()
+            }
+        }
+    })
+}
+
+const LARGE_NAMES: [&str; 4] = ["ProbMinHash3a(HashMap)", "ProbMinHash3(HashMap)", "ProbMinHash2(HashMap)", "ProbMinHash3aSha(HashMap)"];
+
+fn check_large_hashmaps(ctx: &Ctx, st: &mut Stats) {
+    let nsets = ctx.pick(40u64, 200);
+    for which in 0..4usize {
+        let ns = if which == 3 { nsets / 4 } else { nsets };
+        for set in 0..ns {
+            let a = large_hashmap_digest(which, set);
+            let b = large_hashmap_digest(which, set);
+            st.calls += 2;
+            if a != b {
+                ctx.violation(
+                    &format!("instances:{}", LARGE_NAMES[which]),
+                    &format!("{} m=256: two instances fed the same weighted set of 2000 items (set #{}) through std HashMaps (independent iteration orders) give different signatures", LARGE_NAMES[which], set),
+                    json!({"kind": "large-hashmap", "which": which, "set": set}),
+                );
+                break;
+            }
+            if let Ok(w) = &a {
+                st.distinct_obs.insert(fnv_words(w));
+            }
+        }
+    }
+}
+
 fn base_name(kind: &Kind) -> String {
     kind.name.split(" m=").next().unwrap_or(&kind.name).to_string()
 }
@@ -188,6 +248,14 @@ fn check_threads(ctx: &Ctx, kinds: &[Kind], st: &mut Stats) {
 pub fn child(_args: &[String]) -> i32 {
     let kinds = catalogue(&[2, 16], false);
     let ops = script(0);
+    for which in 0..4usize {
+        for set in 0..6u64 {
+            match large_hashmap_digest(which, set) {
+                Ok(w) => println!("DIGEST|{} 2000 items set#{}|{:016x}|{}", LARGE_NAMES[which], set, fnv_words(&w), w.len()),
+                Err(e) => println!("DIGEST|{} 2000 items set#{}|ERR|{}", LARGE_NAMES[which], set, e.replace('\n', " ")),
+            }
+        }
+    }
     for k in &kinds {
         match solo(k, &ops) {
             Ok(w) => println!("DIGEST|{}|{:016x}|{}", k.name, fnv_words(&w), w.len()),
@@ -233,6 +301,7 @@ pub fn run(ctx: &Ctx) -> i32 {
     let kinds = catalogue(&ctx.pick(vec![2usize, 16], vec![1, 2, 5, 16, 64]), false);
     let mut st = Stats { interleavings: 0, calls: 0, thread_rounds: 0, process_lines: 0, distinct_obs: Default::default() };
     check_interleavings(ctx, &kinds, &mut st);
+    check_large_hashmaps(ctx, &mut st);
     check_threads(ctx, &kinds, &mut st);
     check_processes(ctx, &mut st);
     println!(
@@ -247,7 +316,7 @@ pub fn run(ctx: &Ctx) -> i32 {
     let coverage = json!({
         "evaluations": st.interleavings + st.thread_rounds + st.process_lines,
         "distinct_nontrivial": st.distinct_obs.len(),
-        "rule": "for every sketcher type x parameterisation of the catalogue (all 9 sketcher types, several sizes/register types/entry points): ALL interleavings at call granularity of the call sequences (construction included) of 2 instances x 4-5 steps and 3 instances x 3-4 steps, same input and different inputs, each instance compared with its solo run; then 20 (100) rounds of 2..16 free-running threads (sampling, not exhaustive); then 8 (32) process launches whose digests must agree bit for bit (HashMap entry points included); distinct = distinct solo results",
+        "rule": "for every sketcher type x parameterisation of the catalogue (all 9 sketcher types, several sizes/register types/entry points): ALL interleavings at call granularity of the call sequences (construction included) of 2 instances x 4-5 steps and 3 instances x 3-4 steps, same input and different inputs, each instance compared with its solo run; then 40 (200) weighted sets of 2000 items through the std-HashMap entry points of the four ProbMinHash variants on two instances each (independent iteration orders; also part of the process digests); then 20 (100) rounds of 2..16 free-running threads (sampling, not exhaustive); then 8 (32) process launches whose digests must agree bit for bit (HashMap entry points included); distinct = distinct solo results",
         "samples": [
             {"interleaving": {"sketcher": "ProbOrdMinHash2 m=16 l=2", "n": 2, "order": [0, 1, 1, 0, 0, 1, 1, 0]}},
             {"script": format!("{:?}", script(0))},
@@ -276,6 +345,13 @@ pub fn replay(_ctx: &Ctx, case: &Value) -> Result<(bool, String), String> {
     let kinds = catalogue(&[1, 2, 5, 16, 64], false);
     let kind = kinds.iter().find(|k| k.name == name).ok_or("unknown sketcher kind")?;
     match case["kind"].as_str() {
+        Some("large-hashmap") => {
+            let which = case["which"].as_u64().ok_or("which")? as usize;
+            let set = case["set"].as_u64().ok_or("set")?;
+            let a = large_hashmap_digest(which, set);
+            let b = large_hashmap_digest(which, set);
+            return Ok((a != b, format!("two instances agree: {}", a == b)));
+        }
         Some("solo") | Some("threads") | Some("processes") => {
             let a = solo(kind, &script(0));
             let b = solo(kind, &script(0));
